@@ -686,6 +686,17 @@ def breakWindow (s : Shift) : Break → Option (Option TW)
           | .bad => none)
   | .reqExact e l dur => some ((tw2 e l).map (fun w => ⟨w.s, w.e + dur⟩))
 
+/-- the span of a shift as a window `[start.earliest, end.latest]` (`[start, start]` without an end) -/
+def shiftSpan (s : Shift) : Option TW :=
+  match s.startE, s.end_ with
+  | .at a, none => some ⟨a, a⟩
+  | .at a, some e => (match e.latest with | .at b => some ⟨a, b⟩ | .bad => none)
+  | .bad, _ => none
+
+/-- an optional shift date (`start.latest`, `end.earliest`) is given but is not a date -/
+def optionalDateBad (s : Shift) : Bool :=
+  s.startL == some .bad || (match s.end_ with | some e => e.earliest == some .bad | none => false)
+
 /-- the shift's own time window when its dates are well-formed (open end = far future) -/
 def shiftWindow (s : Shift) : Option TW :=
   match s.startE, s.end_ with
@@ -799,13 +810,7 @@ def violates (d : Doc) : Rule → Bool
   | .E1300 => !nodupB (d.vehicles.map (·.typeId))
   | .E1301 => !nodupB (d.vehicles.flatMap (·.ids))
   | .E1302 => d.vehicles.any (fun v =>
-      !twOptListOk (v.shifts.map (fun s =>
-        match s.startE, s.end_ with
-        | .at a, none => some ⟨a, a⟩
-        | .at a, some e => (match e.latest with | .at b => some ⟨a, b⟩ | .bad => none)
-        | .bad, _ => none)) false
-      || v.shifts.any (fun s => s.startL == some .bad
-          || (match s.end_ with | some e => e.earliest == some .bad | none => false)))
+      !twOptListOk (v.shifts.map shiftSpan) false || v.shifts.any optionalDateBad)
   | .E1303 => d.vehicles.any (fun v => v.shifts.any (fun s =>
       match s.breaks with
       | some bs =>
